@@ -1,5 +1,5 @@
 """C14 — every task's epic reference names a live epic."""
-from .. import common, framework, fndiff, cmdrun, gen, oracles
+from .. import common, framework, fndiff, cmdrun, gen, oracles, explore2
 from ..histories import run_history, fieldset, replay_trace, mode_of
 
 WEIGHTS = {"new_task": 30, "new_epic": 10, "set": 30, "claim_oldest": 3, "sequence": 3, "plan": 5, "prune_yes": 10, "compact": 5, "prune": 2, "malformed": 2}
@@ -32,7 +32,18 @@ def run(ctx):
     r = gen.Rng(ctx.seed * 1000003 + 14)
     for h in range(25 if ctx.quick else 400):
         run_history(ctx, r.fork(), 35, WEIGHTS, oracle, gen_fn=gen_fn)
-    ctx.cov["rule"] = ("seeded histories of new/set/plan/prune/compact with the epic argument drawn from {live epic, live task, unknown, pruned, empty} "
+    # the reference is checked in one lock section and the epic pruned in another process: every schedule of prune ∥ (new|set under an
+    # empty epic) and of (new|set under an epic) ∥ prune on the real binary, A parked before / inside / after its lock section
+    framework.check_facts(ctx, ctx.facts, ["lock_sites", "writer_calls", "with_lock", "sections"])
+    def post(g):
+        bad = oracles.inv14(g)
+        return ("task refers to an epic that is not live (%s)" % bad[0][0], "task %s has epic_id %s" % (bad[0][1], bad[0][2])) if bad else None
+    W = {"new_task": 25, "new_epic": 30, "set": 20, "claim_oldest": 3, "sequence": 5, "plan": 2}
+    for i in range(6 if ctx.quick else 120):
+        a, b = (("prune",), ("new_in_epic", "set_epic")) if i % 3 != 2 else (("new_in_epic", "set_epic"), ("prune",))
+        explore2.explore(ctx, "C14", r.fork(), kindsA=a, kindsB=b, max_points=(7 if ctx.quick else 40), state_cmds=8, post_oracle=post, weights=W)
+    ctx.cov["rule"] = ("two-process schedules prune ∥ new/set-under-an-empty-epic (A parked after each of its store system calls; B runs to completion or holds the lock); "
+                       "seeded histories of new/set/plan/prune/compact with the epic argument drawn from {live epic, live task, unknown, pruned, empty} "
                        "in all three input modes; distinct = (command, outcome class, input mode, field set)")
 
 
